@@ -206,8 +206,24 @@ def run_case(case):
     prog = [(10, SETUP), (20, stmts)]
     if case.get("in_if"):
         prog = [(10, SETUP), (20, [("if", ("bin", "=", ("var", "A"), X.num(3)), ("stmts", stmts), [], None)])]
+    if case.get("data"):
+        # the program also holds DATA items spelled exactly like the statement's numeric constants, one of them empty
+        # (which makes the tool turn every DATA item into a string): constants elsewhere must not change with them
+        lits = []
+
+        def grab(x):
+            if isinstance(x, tuple) and x and x[0] == "num" and len(x) > 2 and x not in lits:
+                lits.append(x)
+            elif isinstance(x, (tuple, list)):
+                for y in x:
+                    grab(y)
+            elif isinstance(x, dict):
+                for y in x.values():
+                    grab(y)
+        grab(stmts)
+        prog.append((30, [("data", [("n", v[1], list(v[2])) for v in lits[:4]] + [("u", ""), ("n", 7.0, ["7"])])]))
     text = render(prog)
-    obs["key"] = "%s|%s|%s|%s|%s" % (kind_name, present, sorted((k, str(v)) for k, v in extra.items()), kinds, str(case.get("in_if")) + ("+late" if case.get("late") else ""))
+    obs["key"] = "%s|%s|%s|%s|%s" % (kind_name, present, sorted((k, str(v)) for k, v in extra.items()), kinds, str(case.get("in_if")) + ("+late" if case.get("late") else "") + ("+data" if case.get("data") else ""))
     obs["sets"]["forms"] = ["%s%s" % (kind_name, list(present))]
     cb = harness.run_cb(prog)
     conv = harness.convert(text, initialize_vars=case.get("init", False))
@@ -331,4 +347,5 @@ def cases(tier, seed):
                 for ks in kind_sets:
                     n += 1
                     yield {"form": key, "pat": p, "extra": x, "kinds": ks, "init": n % 2 == 0, "in_if": n % 5 == 0,
-                           "second": n % 7 == 0, "sample": n % 200 == 0, "late": n % 3 == 0}
+                           "second": n % 7 == 0, "sample": n % 200 == 0, "late": n % 3 == 0,
+                           "data": n % 4 == 1}
